@@ -79,6 +79,11 @@ _CATALOGUE = {
     'LookupError': (lambda: LookupError("lookup failure"), LookupError),
     'ArithmeticError': (lambda: ArithmeticError("arithmetic failure"), ArithmeticError),
     'NotImplementedError': (lambda: NotImplementedError(), NotImplementedError),
+    'KeyErrorNoArgs': (lambda: KeyError(), KeyError),
+    'ValueErrorNoArgs': (lambda: ValueError(), ValueError),
+    'IndexErrorNoArgs': (lambda: IndexError(), IndexError),
+    'OSErrorNoArgs': (lambda: OSError(), OSError),
+    'KeyErrorTwoArgs': (lambda: KeyError('k', 'extra'), KeyError),
     'StudentError': (lambda: StudentError("custom failure"), StudentError),
     'EmptyMessage': (lambda: StudentError(), StudentError),
     'NonStrArgs': (lambda: StudentError(42, [1, 2], None), StudentError),
@@ -100,7 +105,8 @@ ORDINARY = ['ValueError', 'KeyError', 'ZeroDivisionError', 'IndexError', 'TypeEr
             'StopIteration', 'AssertionError', 'RecursionError', 'MemoryError', 'ImportError',
             'TimeoutErrorStudent', 'UnicodeDecodeError',
             'StudentError', 'EmptyMessage', 'NonStrArgs', 'FalsyError', 'EmptyCollectionError',
-            'Exception', 'RuntimeError', 'LookupError', 'ArithmeticError', 'NotImplementedError']
+            'Exception', 'RuntimeError', 'LookupError', 'ArithmeticError', 'NotImplementedError',
+            'KeyErrorNoArgs', 'ValueErrorNoArgs', 'IndexErrorNoArgs', 'OSErrorNoArgs', 'KeyErrorTwoArgs']
 BROKEN = ['BadStrError', 'BadReprError', 'BadBothError']
 EXITS = ['SystemExit', 'SystemExitInt', 'SystemExitStr']
 BASE = ['KeyboardInterrupt', 'GeneratorExit', 'StudentBase']
